@@ -244,7 +244,7 @@ static void run_znx3(Case& k, Znx3 ref, Znx3 acc, int op) {
   int64_t *a = k.in<int64_t>(n, 1), *b = k.in<int64_t>(n, 2);
   int64_t *r0 = k.out<int64_t>(n, 3), *r1 = k.out<int64_t>(n, 0);
   fill_i64(a, n, k.fam, k.r);
-  fill_i64(b, n, k.fam >> 1, k.r);
+  fill_i64(b, n, (int)k.sh(20, 4), k.r);
   k.freeze(a, n * 8);
   k.freeze(b, n * 8);
   ref(n, r0, a, b);
@@ -299,7 +299,7 @@ static void run_vec_znx(Case& k, int op) {
   int64_t *a = k.in<int64_t>(ext(as, asl), 1), *b = k.in<int64_t>(ext(bs, bsl), 2);
   int64_t *r0 = k.out<int64_t>(ext(rs, rsl), 3), *r1 = k.out<int64_t>(ext(rs, rsl), 0);
   for (uint64_t i = 0; i < as; ++i) fill_i64(a + i * asl, nn, k.fam + (int)i, k.r);
-  for (uint64_t i = 0; i < bs; ++i) fill_i64(b + i * bsl, nn, (k.fam >> 1) + (int)i, k.r);
+  for (uint64_t i = 0; i < bs; ++i) fill_i64(b + i * bsl, nn, (int)k.sh(20, 4) + (int)i, k.r);
   k.freeze(a, ext(as, asl) * 8);
   k.freeze(b, ext(bs, bsl) * 8);
   switch (op) {
@@ -686,8 +686,8 @@ static void run_fftvec(Case& k, Layout L, bool addmul, const std::vector<Variant
   double *a = k.in<double>(2 * m, 1), *b = k.in<double>(2 * m, 2);
   std::vector<double> r0(2 * m, 0.0);
   fill_d(a, 2 * m, k.fam, k.r);
-  fill_d(b, 2 * m, k.fam >> 1, k.r);
-  if (addmul) fill_d(r0.data(), 2 * m, k.fam >> 2, k.r);
+  fill_d(b, 2 * m, (int)k.sh(20, 3), k.r);  // families of the operands are independent
+  if (addmul) fill_d(r0.data(), 2 * m, (int)k.sh(23, 3), k.r);
   k.freeze(a, 2 * m * 8);
   k.freeze(b, 2 * m * 8);
   std::vector<long double> ex(2 * m), S(2 * m);
@@ -736,7 +736,7 @@ static void run_twiddle(Case& k, bool avx512) {
   k.freeze(om, 32);
   std::vector<double> a0(2 * m), b0(2 * m);
   fill_d(a0.data(), 2 * m, k.fam, k.r);
-  fill_d(b0.data(), 2 * m, k.fam >> 1, k.r);
+  fill_d(b0.data(), 2 * m, (int)k.sh(20, 3), k.r);
   std::vector<long double> exa(2 * m), exb(2 * m), S(2 * m);
   for (size_t i = 0; i < m; ++i) {
     long double br = b0[2 * i], bi = b0[2 * i + 1], wr = om[0], wi = om[1];
@@ -826,7 +826,7 @@ static void run_reim4_mat(Case& k, int cols) {
   const size_t un = 8 * nrows, vn = 8 * cols * nrows;
   double *u = k.in<double>(un, 1), *v = k.in<double>(vn, 2);
   fill_d(u, un, k.fam, k.r);
-  fill_d(v, vn, k.fam >> 1, k.r);
+  fill_d(v, vn, (int)k.sh(20, 3), k.r);
   k.freeze(u, un * 8);
   k.freeze(v, vn * 8);
   std::vector<long double> ex(8 * cols, 0), S(8 * cols, 0);
@@ -931,7 +931,7 @@ static void run_q120(Case& k, int kind) {
   const int rw = kind == 4 ? 16 : kind == 3 ? 8 : 4;
   uint64_t *x = k.in<uint64_t>(xw * ell, 1), *y = k.in<uint64_t>(yw * ell, 2);
   std::vector<uint64_t> ylo(yw * ell);
-  const int fx = k.fam, fy = k.fam >> 1;
+  const int fx = k.fam, fy = (int)k.sh(20, 3);  // independent families for x and y
   for (uint64_t i = 0; i < ell; ++i) {
     for (int j = 0; j < xw; ++j) x[xw * i + j] = q120_word(k, fx, kind != 0, j % 4);
     for (int j = 0; j < yw; ++j) {
